@@ -3,11 +3,10 @@
    AesSm.v, PrngProofs.v, PrngProto.v.  Specifications: Lib/AesSpec.v (FIPS-197), Lib/PrngSpec.v (published PRNGs).
    Structure models of rtllib: Lib/AesModel.v (over Gen/AesTables.v, regenerated from
    pyrtl/rtllib/aes.py on every run), Lib/PrngModel.v (proved equal to Gen/PrngFrag.v, the step
-   functions regenerated from pyrtl/rtllib/prngs.py on every run: Lib/PrngGenProofs.v). *)
+   functions regenerated from pyrtl/rtllib/prngs.py on every run: Props/C18gen.v). *)
 From Coq Require Import ZArith List Bool.
 From PyRTL Require Import Gen.AesTables Lib.AesSpec Lib.AesModel Lib.AesProofs Lib.AesSteps
-  Lib.AesCipher Lib.AesInverse Lib.AesSm Lib.PrngSpec Lib.PrngModel Lib.PrngProofs Lib.PrngProto
-  Lib.PrngGenBase Gen.PrngFrag Lib.PrngGenRun Lib.PrngGenProofs.
+  Lib.AesCipher Lib.AesInverse Lib.AesSm Lib.PrngSpec Lib.PrngModel Lib.PrngProofs Lib.PrngProto.
 Import ListNotations.
 Open Scope Z_scope.
 
@@ -228,58 +227,6 @@ Example C18_prng_protocol_instance :
   msb_first (triv_keystream (Z.shiftr tv_seed 80) tv_seed 128) = 0x1cd761ffceb05e39f5b18f5c22042ab0 /\
   triv_warmup = 1152%nat.
 Proof. vm_compute. repeat split; reflexivity. Qed.
-
-(* ---- the PRNG structure model IS the current source: the step functions of Gen/PrngFrag.v, which
-   py/genfrag_C18prng.py regenerates from prng_lfsr / prng_xoroshiro128 / csprng_trivium on every run
-   (integer parameters, register widths, tap indices with Python's operator precedence, shifts,
-   concat word assembly, the conditional_assignment priority chains, ready, returned slices), equal
-   the hand-written model the theorems above are stated over -- for ALL parameters, register
-   contents and inputs (load / req one bit, seed within its declared width). ---- *)
-Theorem C18_gen_lfsr_is_model : forall bw lfsr i,
-  g_lfsr_step bw lfsr i = (m_lfsr_step bw lfsr i, m_lfsr_out bw lfsr).
-Proof. exact gen_lfsr_is_model. Qed.
-Print Assumptions C18_gen_lfsr_is_model.
-
-Theorem C18_gen_xoroshiro_is_model : forall bw s0 s1 rand counter state load req seed,
-  bit1 load -> bit1 req ->
-  g_xo_step bw (s0, s1, rand, counter, state) (load, req, seed)
-  = (m_xo_step bw (s0, s1, rand, counter, state) (load, req, seed),
-     m_xo_out bw (s0, s1, rand, counter, state) (load, req, seed)).
-Proof. exact gen_xoroshiro_is_model. Qed.
-Print Assumptions C18_gen_xoroshiro_is_model.
-
-Theorem C18_gen_trivium_is_model : forall bw k a b c rand counter state load req seed,
-  bit1 load -> bit1 req -> 0 <= seed < 2 ^ 160 ->
-  g_tv_step bw k (a, b, c, rand, counter, state) (load, req, seed)
-  = (let '(abc', rand', counter', state') := m_tv_step bw k ((a, b, c), rand, counter, state) (load, req, seed) in
-     let '(a', b', c') := abc' in (a', b', c', rand', counter', state'),
-     m_tv_out bw k ((a, b, c), rand, counter, state) (load, req, seed)).
-Proof. exact gen_trivium_is_model. Qed.
-Print Assumptions C18_gen_trivium_is_model.
-
-(* the regenerated parameter guard of csprng_trivium accepts, among 1..64, exactly the seven
-   documented values of bits_per_cycle (finite domain: 64 values, vm_compute sweep lifted) *)
-Theorem C18_gen_trivium_guard : forall k, 1 <= k <= 64 ->
-  (g_tv_rejects 0 k = false <-> In k [1; 2; 4; 8; 16; 32; 64]).
-Proof. exact gen_trivium_guard. Qed.
-Print Assumptions C18_gen_trivium_guard.
-
-(* end to end: running the REGENERATED step functions from the all-zero registers over ANY schedule
-   of in-range inputs yields exactly the (ready, rand) sequence of the protocol specification built
-   from the published algorithms *)
-Theorem C18_gen_prng_protocol :
-  (forall bw ins, 0 < bw -> g_lfsr_run bw 0 ins = s_lfsr_run bw 0 ins) /\
-  (forall bw ins, 0 < bw -> Forall (ins_ok 128) ins ->
-     g_xo_run bw (0, 0, 0, 0, 0) ins = s_xo_run bw sxo_init ins) /\
-  (forall bw k ins, 0 < bw -> g_tv_rejects bw k = false -> 1 <= k <= 64 -> Forall (ins_ok 160) ins ->
-     g_tv_run bw k (0, 0, 0, 0, 0, 0) ins = s_tv_run bw k stv_init ins).
-Proof. exact gen_prng_protocol. Qed.
-Print Assumptions C18_gen_prng_protocol.
-
-Example C18_gen_example :
-  ins_ok 160 (1, 0, tv_seed) /\ g_tv_rejects 128 64 = false /\ g_tv_rejects 128 3 = true /\
-  g_tv_run 128 64 (0, 0, 0, 0, 0, 0) tv_sched = s_tv_run 128 64 stv_init tv_sched.
-Proof. vm_compute. repeat split; (reflexivity || (left; reflexivity) || (right; reflexivity) || discriminate). Qed.
 
 (* ---- the specifications reproduce the published vectors; hypotheses are satisfiable ---- *)
 Example C18_fips197_appendix_B :
